@@ -267,6 +267,17 @@ impl Rollback {
 
         // NOTE: for now, if there is a pending truncate, we ignore everything else.
         if let Some(pending_truncate) = pending_truncate {
+            if in_memory.log.is_empty() {
+                // Every retained delta has been rolled back. The record preceding them may
+                // already be gone (pruned together with its segment), so it must not become
+                // the new live range: the log is simply empty now.
+                return WriteoutData {
+                    rollback_start_live: 0,
+                    rollback_end_live: 0,
+                    prune_to_new_start_live: None,
+                    prune_to_new_end_live: Some(0),
+                };
+            }
             let rollback_start_live = std::cmp::min(seglog.live_range().0 .0, pending_truncate);
             return WriteoutData {
                 rollback_start_live,
